@@ -699,6 +699,28 @@ func runC17(cfg *vh.Config) error {
 		decls = append(decls, &fileDecl{Ents: []*entityDecl{d}})
 		kinds = append(kinds, "zero-keys")
 	}
+	// outside the quantifier too: list-request settings in the query block. The real compiler PANICS
+	// (SetExtension of (j5.list.v1.list_request) on MethodOptions: cmpb's known C07 finding) unless a
+	// walker error comes first; the model returns Panic in exactly those cases
+	for i := 0; i < cfg.Scale(4, 40); i++ {
+		d := genEntityOpt(r, true, "")
+		d.second = false
+		if d.Query == nil {
+			d.Query = &eQuery{}
+		}
+		d.Query.ListRequest = 1 + i%2
+		kind := "list-request-settings"
+		switch i % 4 {
+		case 2:
+			d.Query.DefaultStatus = append(d.Query.DefaultStatus, "NO_SUCH_STATUS")
+			wantErr[len(decls)] = 1
+			kind = "list-request-settings+unknown-default-status"
+		case 3:
+			d.Data = append(d.Data, uField{Name: "dangling", Obj: "NoSuchType", PType: 11, J5Kind: "object"})
+		}
+		decls = append(decls, &fileDecl{Ents: []*entityDecl{d}})
+		kinds = append(kinds, kind)
+	}
 	nBad := cfg.Scale(2*len(negClasses), 14*len(negClasses))
 	for i := 0; i < nBad; i++ {
 		d, c := genMalformed(r, i)
@@ -733,14 +755,20 @@ func runC17(cfg *vh.Config) error {
 		in := map[string]any{"j5s": text}
 		wantClass, malformed := wantErr[i]
 		if out.panicked != nil {
-			res.Fail(vh.Failure{Case: caseNo, Stream: "entity", Sig: "C17 compiler panic on entity declaration", Clause: "entity expansion is total", Input: in, Got: fmt.Sprint(out.panicked)})
+			res.Count("compiler_panic")
+			if !strings.HasPrefix(kinds[i], "list-request-settings") {
+				res.Fail(vh.Failure{Case: caseNo, Stream: "entity", Sig: "C17 compiler panic on entity declaration", Clause: "entity expansion is total", Input: in, Got: fmt.Sprint(out.panicked)})
+			}
+			// the model must predict the panic (c17_check: Panic <-> errc 100)
+			cf.Terms = append(cf.Terms, fmt.Sprintf("EC %s false 100 [] false []", d.coq()))
+			res.Cases = append(res.Cases, vh.CaseRec{Case: caseNo, Stream: "entity", Input: in, Impl: map[string]any{"ok": false, "panic": fmt.Sprint(out.panicked)}})
 			caseNo++
 			continue
 		}
 		ok := out.err == nil
 		errc := 0
 		var lines []line
-		inQuant := !malformed && kinds[i] != "zero-keys"
+		inQuant := !malformed && kinds[i] != "zero-keys" && !strings.HasPrefix(kinds[i], "list-request-settings")
 		if ok {
 			lines = out.dump.Lines
 			res.Count("compiled_ok")
